@@ -5,7 +5,7 @@ HERE = os.path.dirname(os.path.abspath(__file__))
 VERIF = os.path.dirname(HERE)
 sys.path.insert(0, HERE)
 import gen, runner
-from check import failure_props, body_similarity, load_base_tokens
+from check import failure_props, body_similarity, load_base_tokens, split_new_function_failures
 
 
 def verdict(repo):
@@ -19,7 +19,9 @@ def verdict(repo):
     props, obs = set(), []
     base_toks = load_base_tokens()
     reimpl = []
-    for f in run.failures:
+    kept, und, notes = split_new_function_failures(g, res, [f for f in run.failures if not f.oid.startswith('S:')])
+    reimpl.extend(n[:160] for n in notes[:2])
+    for f in kept:
         if f.addr in base_toks and body_similarity(g, res, f.addr, base_toks) < 0.5:
             reimpl.append('%s fails in re-implemented %s' % (f.oid, f.addr)); continue
         t = failure_props(f, res)
